@@ -1849,6 +1849,22 @@ Section EnumOracleProofs.
       apply enum_ok_model in Hq. pose proof (find_none _ _ Ef m (states_all m)) as Hn. congruence.
   Qed.
 
+  (** the executable test of one answer decides the oracle hypothesis *)
+  Theorem answer_ok_truthful q a :
+    answer_ok lit St EM lit_holds bad0 step0 trans bad states lit_eqb q a = true <->
+    truthful lit lit_eqb St EM lit_holds bad0 step0 trans bad q a.
+  Proof.
+    destruct a as [m | core | | e]; cbn [answer_ok truthful]; [apply enum_ok_model | | tauto | tauto].
+    change (restrict_q lit lit_eqb q core) with (restrict lit lit_eqb q core).
+    rewrite negb_true_iff. split.
+    - intros H m Hm. apply enum_ok_model in Hm.
+      assert (Hx : existsb (enum_ok lit St lit_holds bad0 step0 trans bad states (if q_core lit q then restrict lit lit_eqb q core else q)) states = true).
+      { apply existsb_exists. exists m. split; [apply states_all | exact Hm]. }
+      congruence.
+    - intros H. destruct (existsb _ states) eqn:Ex; [| reflexivity].
+      apply existsb_exists in Ex. destruct Ex as (m & _ & Hm). apply enum_ok_model in Hm. now elim (H m).
+  Qed.
+
   Theorem enum_solve_total n q :
     enum_solve lit St EM lit_holds bad0 step0 trans bad states n q <> AUnknown lit St EM /\
     forall e, enum_solve lit St EM lit_holds bad0 step0 trans bad states n q <> AErr lit St EM e.
